@@ -119,10 +119,11 @@ def pv_term(r):
 
 def tb_term(r):
     it = Intern()
-    return "(mkTB %s %s %d %s %s %s (mkPE %s %s) %s %s %s %s %s %s)" % (
+    win = "[" + "; ".join("Build_bh %s %d %s %s" % (e[0], it.code("b:" + e[1]), e[2], e[3]) for e in r["ve"].get("window", [])) + "]"
+    return "(mkTB %s %s %d %s %s %s (mkPE %s %s) %s %s %s %s %s %s %s)" % (
         block(it, r["prevblock"]), block(it, r["old"]), r["fin"], it.n(r["cs"]), it.b(r["app"]), block(it, r["block"]), it.b(r["pe_txroot"]),
         it.b(r["pe_assetroot"]), venv(it, r["ve"]), xenv(it, r["xe"]), it.n(r["del_cs"]), venv(it, r["old_ve"]),
-        xenv(it, r["old_xe"]), impl(it, r))
+        xenv(it, r["old_xe"]), impl(it, r), win)
 
 
 def short(r):
@@ -142,6 +143,13 @@ def evaluate(ck, recs):
             ck.count()
             ck.nontrivial((r["alt"], r["resigned"], r["impl"]["class"], r["path"], len(r["block"]["txs"]) > 0,
                            r["xe"]["post_precommit"] > r["fin"], r["xe"]["params_changed"]))
+            if kind == "pv" and r.get("unsigned_change") and r["impl"]["class"] == "ok":
+                # independent of model and signature oracle: a header whose signed part was altered and which was NOT re-signed can
+                # never be accepted, whatever field was touched
+                ck.failures.append(dict(kind="input", key="c03:accepted-unsigned-alteration:%s" % r["alt"], spec_violated=True, case=r,
+                                        observed=r["impl"], theorem_or_correspondence="signature covers every header field",
+                                        what="alteration '%s' of the signed part of the header, NOT re-signed, was ACCEPTED (%s): the "
+                                             "signature does not cover that field" % (r["alt"], r["path"])))
             if code == 0:
                 continue
             spec_bad = code >= 2
@@ -262,6 +270,26 @@ def run(ck):
             ck.discharged += 1
         else:
             ck.fail_obligation("generator:" + name, "the scenario generator did not produce " + name)
+    ck.obligations += 1
+    disagree = [r for r in recs if not r["ve"].get("signing_bytes_agree", False)]
+    if not disagree and recs:
+        ck.discharged += 1
+    else:
+        r0 = disagree[0] if disagree else None
+        ck.failures.append(dict(kind="input", key="c03:signing-bytes", spec_violated=True, case=r0, observed=None,
+                                theorem_or_correspondence="BlockHeader.SigningBytes vs the field list of the property",
+                                what="BlockHeader.SigningBytes() differs from the independent encoding of tag||chainID||all header fields "
+                                     "except signature and id (%d cases): a field is missing from, or added to, the signed part" % len(disagree)))
+    ck.obligations += 1
+    bad_er = [r for r in recs if not r["xe"].get("eventroot_agree", False)]
+    if not bad_er and recs:
+        ck.discharged += 1
+    else:
+        ck.failures.append(dict(kind="input", key="c03:event-root-definition", spec_violated=True, case=bad_er[0] if bad_er else None,
+                                observed=None, theorem_or_correspondence="CalculateEventRoot vs independent sparse Merkle root",
+                                what="blockchain.CalculateEventRoot differs from the independent sparse-Merkle root of the event "
+                                     "key/value pairs (%d cases)" % len(bad_er)))
+    ck.extra["unsigned_field_alterations"] = sum(1 for r in recs if r.get("unsigned_change"))
     tbs = [r for r in recs if r["k"] == "tb"]
     ck.extra["tie_break_cases"] = {a: sum(1 for r in tbs if r["alt"] == a) for a in sorted(set(r["alt"] for r in tbs))}
     ck.obligations += 1
